@@ -26,9 +26,9 @@ use redb::verif::{VerifAccounting, VerifBuddyAllocator, VerifRegionTracker};
 use redb::Database;
 use serde_json::{json, Value};
 
-use crate::backend::MemBackend;
-use crate::par;
-use crate::report::{panic_key, Report};
+use vh::backend::MemBackend;
+use vh::par;
+use vh::report::{panic_key, Report};
 
 // ------------------------------------------------------------------------------------------------
 // oracle: page array
